@@ -93,9 +93,6 @@ package index
 //@ func (*singleWidthIndex).GetAll
 //@   requires bucket [C03,C09]: 8 <= s.width && s.width <= 33554432 && s.len * s.width <= len(s.index) && s.len <= 281474976710656
 
-//@ func (*multiWidthIndex).GetAll
-//@   call[maplookup#0] assume stored_buckets_wellformed: 8 <= value.width && value.width <= 33554432 && value.len * value.width <= len(value.index) && value.len <= 281474976710656
-
 //@ func (*multiWidthIndex).forEachDigest
 //@   call[maplookup#0] assume stored_buckets_wellformed: 8 <= value.width && value.width <= 33554432 && value.len * value.width <= len(value.index)
 //@   call[append#0] assert collects_the_widths [C11]: ref(arg0) == ref(sizes) && len(arg1) == 1 && arg1[0] == k
@@ -225,3 +222,33 @@ package index
 //@     assume sort_slice_indices: 0 <= i && i < len(sizes) && 0 <= j && j < len(sizes)
 //@     ensures ascending_by_code [C11]: result == (sizes[i] < sizes[j])
 //@   end
+
+// Grouping and lookup by hash code / digest width (C03, C07, C11): a record is filed under the code of its own
+// multihash, a bucket under its own code; a lookup goes to the bucket of the key's code and, inside it, to the
+// bucket of the key's digest width, with the key's own digest and the caller's callback.
+
+//@ func (*MultihashIndexSorted).put
+//@   call[mapupdate#0] assert filed_under_own_code [C03,C11]: key == mwci.code && ref(value) == ref(mwci)
+
+//@ func (*MultihashIndexSorted).get
+//@   call[maplookup#0] assert bucket_of_the_keys_code [C03,C07]: key == dmh.Code
+
+//@ func (*MultihashIndexSorted).Load
+//@   let dmh, derr := call[multihash.Decode#0]
+//@   call[append#0] assert record_kept_whole [C03,C11]: len(arg1) == 1 && arg1[0] == record
+//@   call[mapupdate#1] assert grouped_by_own_code [C03,C11]: key == dmh.Code
+//@   call[multiWidthIndex.Load#0] assert group_loaded_into_bucket_of_its_code [C03,C11]: mwci.code == code__2 && ref(arg1) == ref(recsByCode__2)
+//@   call[MultihashIndexSorted.put#0] assert bucket_stored [C03,C11]: ref(arg0) == ref(m) && ref(arg1) == ref(mwci)
+
+//@ func (*MultihashIndexSorted).GetAll
+//@   let dmh, derr := call[multihash.Decode#0]
+//@   let mwci, gerr := call[MultihashIndexSorted.get#0]
+//@   call[MultihashIndexSorted.get#0] assert by_the_keys_multihash [C03,C07]: ref(arg0) == ref(m) && ref(arg1) == ref(dmh)
+//@   call[multiWidthIndex.GetAll#0] assert same_key_and_callback [C03,C07]: arg1 == cid && arg2 == f
+//@   ensures unknown_code_is_not_found [C07]: derr == nil && gerr != nil ==> err == gerr
+
+//@ func (*multiWidthIndex).GetAll
+//@   let d, derr := call[multihash.Decode#0]
+//@   call[maplookup#0] assert bucket_of_the_keys_digest_width [C03,C07]: key == wrap_u32(len(d.Digest) + 8)
+//@   call[maplookup#0] assume stored_buckets_wellformed: 8 <= value.width && value.width <= 33554432 && value.len * value.width <= len(value.index) && value.len <= 281474976710656
+//@   call[singleWidthIndex.getAll#0] assert the_keys_digest_and_callback [C03,C07]: ref(arg1) == ref(d.Digest) && arg2 == fn
